@@ -13,7 +13,7 @@ for name in names:
         summ = summ[:200] + "..."
     by = " ".join(m.get("caught_by", "").split())
     if by.startswith("NOT CAUGHT"):
-        caught = "no (out of scope)"
+        caught = "no (not attempted)" if "not attempted" in by[:60] else "no (out of scope)"
         tally["no"] += 1
     elif m.get("check_strengthened"):
         caught = "after strengthening"
@@ -25,7 +25,7 @@ for name in names:
         by = by[:220] + "..."
     rows.append("| %s | %s | %s | %s |" % (name, summ.replace("|", "/"), caught, by.replace("|", "/")))
 table = "\n".join(["<!-- seed-table-begin -->",
-                   "%d seeded changes: %d caught as the checks stood, %d after strengthening, %d recorded as out of scope." % (
+                   "%d seeded changes: %d caught as the checks stood, %d after strengthening, %d recorded as not caught (out of scope or not attempted)." % (
                        len(rows), tally["yes"], tally["strengthened"], tally["no"]),
                    "", "| seed | change | caught | by |", "|---|---|---|---|"] + rows + ["<!-- seed-table-end -->"])
 p = os.path.join(root, "DESIGN.md")
